@@ -15,7 +15,7 @@
 (***************************************************************************)
 EXTENDS Integers, Sequences, FiniteSets, TLC
 
-Toks == 0..9
+Toks == 1..4        \* tokens a CreateSession can have returned; the forged and the null token are never known
 Unknown == [known |-> FALSE, act |-> FALSE, conn |-> 0, chan |-> 0, closed |-> FALSE, to |-> FALSE, gen |-> 0]
 M19Init == [t \in Toks |-> Unknown]
 
